@@ -47,6 +47,24 @@ def gen_cases(tier, seed):
                 if pol == "randn1" and world == "f64" and (ci < 2 or tier == "thorough") and "umnn" not in fam:
                     # the same object after its values were replaced (built and called with other values, then loaded)
                     cases.append(dict(base_case, pre="revalued"))
+    # TRAINING mode with batch-normalised conditioners: both directions of one layer must use the same conditioner function (batch
+    # statistics in both; a masked network's hidden unit only sees features of lower index, which the inverse has already
+    # restored when it needs them; a coupling conditioner sees the identity features, which are the same in both directions)
+    rng = np.random.default_rng(seed + 4242)
+    k = 0
+    for fam in ("ar_affine", "ar_rq", "ar_quadratic", "ar_linear", "coupling_affine", "coupling_rq", "coupling_additive"):
+        for rep in range(2 if tier == "quick" else 40):
+            cfg = zoo.FAM[fam].sample_cfg(rng, tier)
+            cfg["net_bn"] = True
+            cfg.pop("dropout", None)
+            if fam.startswith("coupling_"):
+                cfg["net"] = "resnet"
+                cfg["shape"] = cfg["shape"][:1] if rep % 2 == 0 else cfg["shape"]
+            else:
+                cfg["blocks"] = max(cfg["blocks"], 1)
+            cases.append({"kind": "zoo", "cfg": cfg, "policy": ["randn0.3", "randn1"][rep % 2], "train": True,
+                          "seed": env.subseed(seed, "c02train", fam, k), "world": "f64", "batch": 6 + rep % 3, "cost": 2})
+            k += 1
     nb = 4 if tier == "quick" else 120
     for fam in ("linear", "quadratic", "cubic", "rq"):
         for bi, bx in enumerate(splineref.BOXES):
@@ -110,6 +128,9 @@ def run_case(case):
         r.viol("construct", "%s constructor raises" % fam, exc=repr(e)[:300], cfg=cfg)
         return r.done()
     B = case["batch"]
+    if case.get("train"):
+        model.train()
+        r.count("training_mode_subjects")
     if case.get("pre") == "revalued":
         try:
             model = zoo.revalued(cfg, model, me, case["seed"], B)
